@@ -582,7 +582,9 @@ func (r *conc14Runner) stressAdapter(seed int64, nw, nops int) {
 }
 
 func (r *conc14Runner) stressImmunity(seed int64, nw, nops int) {
-	c, err := immunitycache.NewImmunityCache(immunitycache.CacheConfig{Name: "c14", NumChunks: 4, MaxNumItems: 64, MaxNumBytes: 100000, NumItemsToPreemptivelyEvict: 8})
+	// a limit that is NOT a multiple of the number of chunks: whatever the per-chunk shares are, together they must not exceed it
+	const maxItems = 66
+	c, err := immunitycache.NewImmunityCache(immunitycache.CacheConfig{Name: "c14", NumChunks: 4, MaxNumItems: maxItems, MaxNumBytes: 100000, NumItemsToPreemptivelyEvict: 8})
 	if err != nil {
 		panic(err)
 	}
@@ -610,13 +612,16 @@ func (r *conc14Runner) stressImmunity(seed int64, nw, nops int) {
 				_ = c.Keys()
 			default:
 				c.ForEachItem(func(key []byte, v interface{}) {})
-				if c.Count() > 64 {
+				if c.Count() > maxItems {
 					atomic.StoreInt32(&over, 1)
 				}
 			}
 		}
 	}, seed) {
 		return
+	}
+	if c.Count() > maxItems || c.Len() > maxItems {
+		over = 1
 	}
 	if over == 1 {
 		r.add("C14", "immunity-over-capacity", fmt.Sprintf("immunity seed=%d", seed))
